@@ -10,10 +10,14 @@
 package main
 
 import (
+	"context"
+	"encoding/hex"
 	"fmt"
 	"os"
+	"os/exec"
 	"path/filepath"
 	"strings"
+	"time"
 
 	"verifharness/hc"
 )
@@ -39,9 +43,59 @@ func progSetupSQL() string {
 	return b.String()
 }
 
+// rv: one item of a USING list — a literal, or (hold != "") a placeholder of the SURROUNDING prepared statement
+// ("?" with the ordinal the parser gives it in that statement's text, or ":name"), optionally + plus
 type rv struct {
 	val  int
 	name string
+	hold string
+	ord  int
+	plus int
+}
+
+func (u rv) exprSQL() string {
+	if u.hold == "" {
+		return fmt.Sprint(u.val)
+	}
+	if u.plus != 0 {
+		return fmt.Sprintf("%s + %d", u.hold, u.plus)
+	}
+	return u.hold
+}
+
+func (u rv) exprTok() string {
+	if u.hold == "" {
+		return fmt.Sprint(u.val)
+	}
+	t := u.hold
+	if u.hold == "?" {
+		t = fmt.Sprintf("?%d", u.ord)
+	}
+	if u.plus != 0 {
+		t += fmt.Sprintf("+%d", u.plus)
+	}
+	return t
+}
+
+// evalIn: the harness' own reading of a USING item written in a statement that runs under the frames `outer`
+// (innermost last): a placeholder is one of THAT statement — the innermost of `outer` gives its expression, which was
+// written one level further out
+func evalIn(u rv, outer [][]rv) (int, bool) {
+	if u.hold == "" {
+		return u.val, true
+	}
+	if len(outer) == 0 {
+		return 0, false
+	}
+	fr, rest := outer[len(outer)-1], outer[:len(outer)-1]
+	var v int
+	var ok bool
+	if u.hold == "?" {
+		v, ok = ownPos(fr, rest, u.ord)
+	} else {
+		v, ok = ownNamed(fr, rest, u.hold[1:])
+	}
+	return v + u.plus, ok
 }
 
 func usingSQL(us []rv) string {
@@ -50,7 +104,7 @@ func usingSQL(us []rv) string {
 	}
 	p := make([]string, len(us))
 	for i, u := range us {
-		p[i] = fmt.Sprint(u.val)
+		p[i] = u.exprSQL()
 		if u.name != "" {
 			p[i] += " AS " + u.name
 		}
@@ -61,7 +115,7 @@ func usingSQL(us []rv) string {
 func usingTokens(us []rv) string {
 	p := make([]string, len(us))
 	for i, u := range us {
-		p[i] = fmt.Sprint(u.val)
+		p[i] = u.exprTok()
 		if u.name != "" {
 			p[i] += "@" + u.name
 		}
@@ -73,17 +127,17 @@ func usingTokens(us []rv) string {
 }
 
 // the harness' own reading of a placeholder: ONLY the list of the OPEN itself
-func ownPos(us []rv, k int) (int, bool) {
-	if len(us) < k {
+func ownPos(us []rv, outer [][]rv, k int) (int, bool) {
+	if k < 1 || len(us) < k {
 		return 0, false
 	}
-	return us[k-1].val, true
+	return evalIn(us[k-1], outer)
 }
 
-func ownNamed(us []rv, n string) (int, bool) {
+func ownNamed(us []rv, outer [][]rv, n string) (int, bool) {
 	for i := len(us) - 1; i >= 0; i-- {
 		if us[i].name == n {
-			return us[i].val, true
+			return evalIn(us[i], outer)
 		}
 	}
 	return 0, false
@@ -91,16 +145,16 @@ func ownNamed(us []rv, n string) (int, bool) {
 
 // evalShape: the rows the statement selects with the OPEN's own values; false: a placeholder that is read has no value
 // (the WHERE clause is evaluated row by row; the right operand of AND only for rows that pass the left one)
-func evalShape(shape int, us []rv, t []row) ([]string, bool) {
+func evalShape(shape int, us []rv, outer [][]rv, t []row) ([]string, bool) {
 	out := []string{}
 	for _, r := range t {
 		var lo, hi int
 		var ok bool
 		switch shape {
 		case 0, 2:
-			lo, ok = ownPos(us, 1)
+			lo, ok = ownPos(us, outer, 1)
 		default:
-			lo, ok = ownNamed(us, "lo")
+			lo, ok = ownNamed(us, outer, "lo")
 		}
 		if !ok {
 			return nil, false
@@ -110,9 +164,9 @@ func evalShape(shape int, us []rv, t []row) ([]string, bool) {
 		}
 		if shape >= 2 {
 			if shape == 2 {
-				hi, ok = ownPos(us, 2)
+				hi, ok = ownPos(us, outer, 2)
 			} else {
-				hi, ok = ownNamed(us, "hi")
+				hi, ok = ownNamed(us, outer, "hi")
 			}
 			if !ok {
 				return nil, false
@@ -140,15 +194,15 @@ func (h *hist) genUsing(shape int, forOpen bool) []rv {
 	var us []rv
 	switch shape {
 	case 0:
-		us = []rv{{val(), ""}}
+		us = []rv{{val: val(), name: ""}}
 	case 1:
-		us = []rv{{val(), "lo"}}
+		us = []rv{{val: val(), name: "lo"}}
 	case 2:
 		lo := val()
-		us = []rv{{lo, ""}, {lo + 1 + g.Intn(int(h.nextID)+2), ""}}
+		us = []rv{{val: lo, name: ""}, {val: lo + 1 + g.Intn(int(h.nextID)+2), name: ""}}
 	default:
 		lo := val()
-		us = []rv{{lo, "lo"}, {lo + 1 + g.Intn(int(h.nextID)+2), "hi"}}
+		us = []rv{{val: lo, name: "lo"}, {val: lo + 1 + g.Intn(int(h.nextID)+2), name: "hi"}}
 		if g.Intn(3) == 0 {
 			us[0], us[1] = us[1], us[0]
 		}
@@ -166,17 +220,19 @@ func (h *hist) genUsing(shape int, forOpen bool) []rv {
 		}
 	case 2: // a name twice: the later entry is the one that counts
 		if us[0].name != "" {
-			us = append([]rv{{val(), us[0].name}}, us...)
+			us = append([]rv{{val: val(), name: us[0].name}}, us...)
 		}
 	case 3: // a value more than the statement reads
-		us = append(us, rv{val(), ""})
+		us = append(us, rv{val: val(), name: ""})
 	}
 	_ = forOpen
 	return us
 }
 
 // genProg: items of one level
-func (h *hist) genProg(focus string, shape, depth int, top bool) []*pitem {
+// prep: the statements of this level are the text of a prepared statement (the body of an EXECUTE level): a USING
+// item may then be a placeholder of that text — `?`, `:name`, `? + k` —, read from the list of the EXECUTE that runs it
+func (h *hist) genProg(focus string, shape, depth int, top, prep bool, around []rv) []*pitem {
 	g := h.g
 	spell := func() string {
 		var alts []string
@@ -203,10 +259,33 @@ func (h *hist) genProg(focus string, shape, depth int, top bool) []*pitem {
 		}
 		return &pitem{kind: 'A', act: st}
 	}
+	// some items become placeholders of the surrounding text
+	holds := func(us []rv) []rv {
+		if !prep || placeholderFatal || g.Intn(5) < 2 {
+			return us
+		}
+		for i := range us {
+			if g.Intn(5) < 2 {
+				continue
+			}
+			us[i].hold = "?"
+			if g.Intn(5) < 2 {
+				names := []string{"lo", "hi"}
+				for _, a := range around {
+					if a.name != "" {
+						names = append(names, a.name, a.name)
+					}
+				}
+				us[i].hold = ":" + names[g.Intn(len(names))]
+			}
+			us[i].plus = []int{0, 0, 1, 2}[g.Intn(4)]
+		}
+		return us
+	}
 	open := func() *pitem {
 		it := &pitem{kind: 'O', name: spell()}
 		if g.Intn(5) < 3 {
-			it.us = h.genUsing(shape, true)
+			it.us = holds(h.genUsing(shape, true))
 		}
 		return it
 	}
@@ -226,14 +305,14 @@ func (h *hist) genProg(focus string, shape, depth int, top bool) []*pitem {
 			it := &pitem{kind: 'X'}
 			if g.Intn(6) > 0 {
 				// the surrounding values would select OTHER rows than the OPEN's own (or rows at all)
-				it.us = h.genUsing([]int{shape, shape, g.Intn(4)}[g.Intn(3)], false)
+				it.us = holds(h.genUsing([]int{shape, shape, g.Intn(4)}[g.Intn(3)], false))
 			}
-			it.body = h.genProg(focus, shape, depth-1, false)
+			it.body = h.genProg(focus, shape, depth-1, false, true, it.us)
 			out = append(out, it)
 		case depth > 0 && w < 55:
-			out = append(out, &pitem{kind: 'F', body: h.genProg(focus, shape, depth-1, false)})
+			out = append(out, &pitem{kind: 'F', body: h.genProg(focus, shape, depth-1, false, false, nil)})
 		case depth > 0 && w < 63:
-			out = append(out, &pitem{kind: 'S', body: h.genProg(focus, shape, depth-1, false)})
+			out = append(out, &pitem{kind: 'S', body: h.genProg(focus, shape, depth-1, false, false, nil)})
 		case w < 85:
 			out = append(out, open())
 		default:
@@ -245,6 +324,152 @@ func (h *hist) genProg(focus string, shape, depth int, top bool) []*pitem {
 		out = append(out, act(), &pitem{kind: 'A', act: &lstmt{kind: "count", name: spell()}})
 	}
 	return out
+}
+
+// assignOrdinals: a `?` that is the k-th PLACEHOLDER (of either spelling) of the text of one prepared statement is ?{k} (lib/parser numbers them while it scans);
+// the USING lists of the OPEN and EXECUTE statements of a level stand in that level's text, in order
+func assignOrdinals(l []*pitem, counter *int) {
+	for _, it := range l {
+		if it.kind == 'O' || it.kind == 'X' {
+			for i := range it.us {
+				if it.us[i].hold != "" && counter != nil {
+					*counter++ // (a named placeholder takes a number too: lib/parser/scanner.go)
+					if it.us[i].hold == "?" {
+						it.us[i].ord = *counter
+					}
+				}
+			}
+		}
+		switch it.kind {
+		case 'X':
+			n := 0
+			assignOrdinals(it.body, &n)
+		case 'F', 'S':
+			assignOrdinals(it.body, nil)
+		}
+	}
+}
+
+func hasHolds(l []*pitem) bool {
+	for _, it := range l {
+		for _, u := range it.us {
+			if u.hold != "" {
+				return true
+			}
+		}
+		if hasHolds(it.body) {
+			return true
+		}
+	}
+	return false
+}
+
+func stripHolds(l []*pitem) {
+	for _, it := range l {
+		for i := range it.us {
+			it.us[i].hold, it.us[i].ord, it.us[i].plus = "", 0, 0
+		}
+		stripHolds(it.body)
+	}
+}
+
+// ---------- the same programs as real csvq processes ----------
+
+// A Go runtime fatal (stack overflow: finding F118, a placeholder in a USING list read itself without end) cannot be
+// recovered in-process, so programs with placeholders in USING lists also run on the binary built from the tree
+// (env VERIF_CSVQ) under a timeout: law runtime_fatal:placeholder_in_using with the script as replay.  Once seen, the
+// stream stops generating such items (they would end the harness itself).
+var csvqBin = os.Getenv("VERIF_CSVQ")
+var placeholderFatal = false
+var procRuns = 0
+
+const procRunCap = 40
+
+func runCsvq(dir, script string) (string, int, bool) {
+	path := filepath.Join(dir, "proc.sql")
+	if err := os.WriteFile(path, []byte(script+"\n"), 0o644); err != nil {
+		panic(err)
+	}
+	defer os.Remove(path)
+	cctx, cancel := context.WithTimeout(context.Background(), 40*time.Second)
+	defer cancel()
+	cmd := exec.CommandContext(cctx, csvqBin, "-r", dir, "-s", path)
+	cmd.Dir = dir
+	out, err := cmd.CombinedOutput()
+	code := 0
+	if err != nil {
+		code = -1
+		if ee, ok := err.(*exec.ExitError); ok {
+			code = ee.ExitCode()
+		}
+	}
+	return string(out), code, cctx.Err() != nil
+}
+
+func fatalOutput(out string, code int) bool {
+	return strings.Contains(out, "fatal error") || strings.Contains(out, "panic:") || strings.Contains(out, "[Fatal Error]") ||
+		strings.Contains(out, "goroutine ") || code == 2
+}
+
+func reportFatal(o *hc.Out, what, script, out string, code int, timedOut bool) {
+	if len(out) > 700 {
+		out = out[:700] + " …"
+	}
+	o.Law("runtime_fatal:placeholder_in_using", map[string]interface{}{"what": what, "script": script, "exit_status": code, "timed_out": timedOut, "output": out,
+		"rule": "a placeholder in the USING list of an EXECUTE / OPEN that stands in a prepared statement is a placeholder of THAT statement; reading it must end (F118)"})
+}
+
+// probePlaceholders: the two reproducers of F118, as processes, before anything of the kind runs in-process
+func probePlaceholders(o *hc.Out, dir string) {
+	if csvqBin == "" {
+		o.Count("process_level_runs_skipped_no_binary")
+		return
+	}
+	scripts := []struct{ what, sql string }{
+		{"F118 EXECUTE … USING ? inside a prepared statement", "PREPARE pin FROM 'SELECT ? + 100'; PREPARE pout FROM 'EXECUTE pin USING ?;'; EXECUTE pout USING 5;"},
+		{"F118 OPEN … USING ?, 4 inside a prepared statement", "DECLARE t VIEW (id, v); INSERT INTO t VALUES (1, 'a'), (2, 'b'), (3, 'c'), (4, 'd'); PREPARE pick FROM 'SELECT id, v FROM t WHERE id > ? AND id < ?'; DECLARE cur CURSOR FOR pick; PREPARE e1 FROM 'OPEN cur USING ?, 4;'; EXECUTE e1 USING 1; PRINT CURSOR cur COUNT;"},
+	}
+	want := []string{"105", "2"}
+	for i, sc := range scripts {
+		out, code, to := runCsvq(dir, sc.sql)
+		o.Count("process_level_runs")
+		if fatalOutput(out, code) || to {
+			reportFatal(o, sc.what, sc.sql, out, code, to)
+			placeholderFatal = true
+			continue
+		}
+		if !strings.Contains(out, want[i]) {
+			o.Law("using_placeholder_reads_surrounding_frame", map[string]interface{}{"what": sc.what, "script": sc.sql, "expected_in_output": want[i], "output": out, "exit_status": code})
+		}
+	}
+}
+
+func tokText(tok string) string {
+	if tok == "N" {
+		return "NULL"
+	}
+	b, err := hex.DecodeString(strings.TrimPrefix(tok, "S"))
+	if err != nil {
+		return "NULL"
+	}
+	return "'" + string(b) + "'"
+}
+
+// procScript: the program as a script of its own, over a temporary table with the rows of the shadow table
+func (h *hist) procScript(focus string, shape int, prelude []string, sql string) string {
+	var b strings.Builder
+	b.WriteString("DECLARE t VIEW (id, v);")
+	if len(h.t) > 0 {
+		vals := make([]string, len(h.t))
+		for i, r := range h.t {
+			vals[i] = fmt.Sprintf("(%d, %s)", r.id, tokText(r.vTok))
+		}
+		b.WriteString(" INSERT INTO t VALUES " + strings.Join(vals, ", ") + ";")
+	}
+	b.WriteString(" VAR @c, @d, @s, @w; DECLARE lp VIEW (t, a, b); " + progSetupSQL())
+	fmt.Fprintf(&b, " DECLARE %s CURSOR FOR psh%d; ", focus, shape)
+	b.WriteString(strings.Join(prelude, " ") + " " + sql)
+	return b.String()
 }
 
 func hasOpen(l []*pitem) bool {
@@ -336,6 +561,8 @@ type progSim struct {
 	inner  int // OPENs without USING executed under a surrounding non-empty USING list …
 	leak   int // … of which the surrounding values would have satisfied the statement
 	refuse int
+	holds  int // placeholders in the USING list of an executed OPEN …
+	holds2 int // … under a surrounding list that holds placeholders itself (two levels of indirection)
 }
 
 func (s *progSim) run(l []*pitem, outer [][]rv) bool {
@@ -368,12 +595,25 @@ func (s *progSim) run(l []*pitem, outer [][]rv) bool {
 		case c.open:
 			r = "E11004"
 		default:
-			rows, ok := evalShape(s.shape, it.us, s.h.t)
+			rows, ok := evalShape(s.shape, it.us, outer, s.h.t)
 			surrounded := len(outer) > 0 && len(outer[len(outer)-1]) > 0
 			if surrounded && len(it.us) == 0 {
 				s.inner++
-				if _, ok2 := evalShape(s.shape, outer[len(outer)-1], s.h.t); ok2 && !ok {
+				if _, ok2 := evalShape(s.shape, outer[len(outer)-1], outer[:len(outer)-1], s.h.t); ok2 && !ok {
 					s.leak++
+				}
+			}
+			for _, u := range it.us {
+				if u.hold != "" {
+					s.holds++
+					if len(outer) > 0 {
+						for _, o := range outer[len(outer)-1] {
+							if o.hold != "" {
+								s.holds2++
+								break
+							}
+						}
+					}
 				}
 			}
 			if !ok {
@@ -433,20 +673,46 @@ func (h *hist) stepProg(fixed []*pitem, fixedName string) bool {
 	prog := fixed
 	if prog == nil {
 		for try := 0; ; try++ {
-			prog = h.genProg(focus, shape, 1+g.Intn(3), true)
+			prog = h.genProg(focus, shape, 1+g.Intn(3), true, false, nil)
 			if hasOpen(prog) || try > 6 {
 				break
 			}
 		}
 	}
-	s := &progSim{h: h, shape: shape, curs: map[string]*cursor{}}
-	for k, c := range h.curs {
-		s.curs[k] = cloneCursor(c)
+	if placeholderFatal && hasHolds(prog) {
+		stripHolds(prog)
+		h.o.Count("prog_placeholders_stripped_after_runtime_fatal")
 	}
-	s.run(prog, nil)
-
+	var s *progSim
 	var prelude, cleanup, files []string
-	sql := h.progSQL(prog, &prelude, &cleanup, &files)
+	var sql string
+	for pass := 0; ; pass++ {
+		assignOrdinals(prog, nil)
+		s = &progSim{h: h, shape: shape, curs: map[string]*cursor{}}
+		for k, c := range h.curs {
+			s.curs[k] = cloneCursor(c)
+		}
+		s.run(prog, nil)
+		prelude, cleanup, files = nil, nil, nil
+		sql = h.progSQL(prog, &prelude, &cleanup, &files)
+		// with placeholders in USING lists: first on the real binary (a runtime fatal would end this process)
+		if pass == 0 && hasHolds(prog) && csvqBin != "" && (procRuns < procRunCap || fixed != nil) {
+			procRuns++
+			script := h.procScript(focus, shape, prelude, sql)
+			out, code, to := runCsvq(h.dir, script)
+			h.o.Count("process_level_runs")
+			if fatalOutput(out, code) || to {
+				reportFatal(h.o, "program "+progTokens(prog), script, out, code, to)
+				placeholderFatal = true
+				for _, f := range files {
+					_ = os.Remove(f)
+				}
+				stripHolds(prog)
+				continue
+			}
+		}
+		break
+	}
 	sql = strings.TrimSpace(strings.Join(prelude, " ") + " " + sql)
 	err := h.exec(sql)
 	var got []string
@@ -474,11 +740,13 @@ func (h *hist) stepProg(fixed []*pitem, fixedName string) bool {
 	h.o.Stats["prog_open_without_using_inside_execute_using"] += s.inner
 	h.o.Stats["prog_open_would_be_satisfied_by_outer_values"] += s.leak
 	h.o.Stats["prog_open_refused"] += s.refuse
+	h.o.Stats["prog_open_using_placeholder_items"] += s.holds
+	h.o.Stats["prog_open_using_placeholder_under_placeholder_list"] += s.holds2
 	end := "ok"
 	if len(s.trace) > 0 && strings.HasPrefix(s.trace[len(s.trace)-1], "E") {
 		end = s.trace[len(s.trace)-1]
 	}
-	h.o.NonTrivial(fmt.Sprintf("prog|%v|shape%d|depth%d|inner:%v|leak:%v|%s|len%s", h.file, shape, depthOf(prog), s.inner > 0, s.leak > 0, end, lenBucket(len(h.t))))
+	h.o.NonTrivial(fmt.Sprintf("prog|%v|shape%d|depth%d|inner:%v|leak:%v|holds:%v/%v|%s|len%s", h.file, shape, depthOf(prog), s.inner > 0, s.leak > 0, s.holds > 0, s.holds2 > 0, end, lenBucket(len(h.t))))
 
 	if d := firstDiff(got, s.trace); d >= 0 {
 		ln := "open_sees_only_its_own_values"
@@ -537,11 +805,11 @@ func scriptedProgs(o *hc.Out, dirIn string, mk func(tag string) *hist) (int, str
 	u := func(v ...int) []rv {
 		out := make([]rv, len(v))
 		for i, x := range v {
-			out[i] = rv{x, ""}
+			out[i] = rv{val: x, name: ""}
 		}
 		return out
 	}
-	nm := func(lo, hi int) []rv { return []rv{{lo, "lo"}, {hi, "hi"}} }
+	nm := func(lo, hi int) []rv { return []rv{{val: lo, name: "lo"}, {val: hi, name: "hi"}} }
 	O := func(us []rv) *pitem { return &pitem{kind: 'O', name: "cur", us: us} }
 	A := func(kind, pos string) *pitem { return &pitem{kind: 'A', act: &lstmt{kind: kind, name: "cur", pos: pos}} }
 	X := func(us []rv, body ...*pitem) *pitem { return &pitem{kind: 'X', us: us, body: body} }
@@ -574,15 +842,34 @@ func scriptedProgs(o *hc.Out, dirIn string, mk func(tag string) *hist) (int, str
 			{X(u(0), X(u(0, 9), F(O(nil))))},
 		}},
 		{false, 3, 1, [][]*pitem{
-			{X([]rv{{1, "lo"}}, O(nil))},
-			{X([]rv{{1, "lo"}}, O([]rv{{2, "lo"}})), A("count", ""), A("close", "")},
-			{X([]rv{{1, "lo"}}, O(u(0))), A("isopen", "")},
-			{O([]rv{{5, "lo"}, {0, "lo"}}), A("count", ""), A("close", "")},
+			{X([]rv{{val: 1, name: "lo"}}, O(nil))},
+			{X([]rv{{val: 1, name: "lo"}}, O([]rv{{val: 2, name: "lo"}})), A("count", ""), A("close", "")},
+			{X([]rv{{val: 1, name: "lo"}}, O(u(0))), A("isopen", "")},
+			{O([]rv{{val: 5, name: "lo"}, {val: 0, name: "lo"}}), A("count", ""), A("close", "")},
 		}},
 		{true, 4, 3, [][]*pitem{
 			{X(nm(0, 9), O(nil)), A("isopen", "")},
 			{X(nm(0, 9), O(nm(1, 4))), A("count", ""), A("fetch", "next"), A("close", "")},
-			{X(nm(0, 9), S(O([]rv{{1, "lo"}}))), A("isopen", "")},
+			{X(nm(0, 9), S(O([]rv{{val: 1, name: "lo"}}))), A("isopen", "")},
+		}},
+		// placeholders IN the USING lists (finding F118): `OPEN cur USING ?, 4` inside EXECUTE … USING 1 opens on 1 < id < 4;
+		// `EXECUTE … USING ?` hands the value on through two levels; `? + 1`; a `?` beyond the surrounding list and a
+		// `?` under an EXECUTE without USING are "not specified"
+		{false, 4, 2, [][]*pitem{
+			{X(u(1), O([]rv{{hold: "?"}, {val: 4}}), A("count", "")), A("fetch", "next"), A("close", "")},
+			{X(u(1, 3), O([]rv{{hold: "?"}, {hold: "?", plus: 1}}), A("count", "")), A("close", "")},
+			{X(u(1), O([]rv{{hold: "?"}, {hold: "?"}})), A("isopen", "")},
+		}},
+		{true, 5, 0, [][]*pitem{
+			{X(u(3), X([]rv{{hold: "?"}}, O([]rv{{hold: "?", plus: 1}}), A("count", ""))), A("fetch", "first"), A("close", "")},
+			{X(nil, O([]rv{{hold: "?"}})), A("isopen", "")},
+			{X(u(2), X(nil, O([]rv{{hold: "?"}}))), A("isopen", "")},
+			{X(u(2), X(u(0), O([]rv{{hold: "?"}}), A("count", ""))), A("close", "")},
+		}},
+		{false, 3, 1, [][]*pitem{
+			{X([]rv{{val: 1, name: "lo"}}, O([]rv{{hold: ":lo", name: "lo"}}), A("count", "")), A("close", "")},
+			{X([]rv{{val: 1, name: "lo"}}, O([]rv{{hold: ":hi", name: "lo"}})), A("isopen", "")},
+			{X([]rv{{val: 0, name: "x"}, {val: 2, name: "lo"}}, X([]rv{{hold: ":lo", plus: 2, name: "y"}}, O([]rv{{hold: ":y", name: "lo"}}), A("count", ""))), A("close", "")},
 		}},
 		// an empty table: nothing reads the placeholder, OPEN without USING succeeds everywhere
 		{false, 0, 0, [][]*pitem{{O(nil), A("count", ""), A("close", "")}, {X(u(2), O(nil)), A("count", "")}}},
